@@ -20,7 +20,7 @@ theorem restored (φ : Faults) (body : Option Exc) (scramble : Ctx → Ctx) (m :
     (block aenter aexit φ body scramble m).1.ctx = m.ctx := by
   unfold block aenter aexit
   simp only [run, runAtom]
-  cases h1 : φ .dispEnter <;> cases h2 : φ .groupExit <;> cases h3 : φ .dispExit <;> simp
+  cases h1 : φ .dispEnter <;> cases h2 : φ .groupExit <;> cases h3 : φ .dispExit <;> cases h4 : φ .metricsExit <;> simp
 
 /-- C02.restored_sync: synchronous scope.  It installs and resets the state and metrics variables; the task-group
 variable is not touched by it, so the body is assumed to leave *that one* as it found it (which the blocks nested in
@@ -29,7 +29,7 @@ theorem restored_sync (φ : Faults) (body : Option Exc) (scramble : Ctx → Ctx)
     (hg : ∀ c, (scramble c).group = c.group) :
     (block senter sexit φ body scramble m).1.ctx = m.ctx := by
   unfold block senter sexit
-  simp [run, runAtom, hg]
+  cases h4 : φ .metricsExit <;> simp [run, runAtom, hg, h4]
 
 /-- C02.restored_updated: `ctx.updated` installs and resets the state variable only. -/
 theorem restored_updated (φ : Faults) (body : Option Exc) (scramble : Ctx → Ctx) (m : M)
@@ -45,10 +45,11 @@ theorem same_exception (φ : Faults) (body : Option Exc) (scramble : Ctx → Ctx
   unfold block aenter aexit
   simp [run, runAtom, h]
 
-theorem same_exception_sync (φ : Faults) (body : Option Exc) (scramble : Ctx → Ctx) (m : M) :
+theorem same_exception_sync (φ : Faults) (body : Option Exc) (scramble : Ctx → Ctx) (m : M)
+    (h : φ .metricsExit = none) :
     (block senter sexit φ body scramble m).2 = body := by
   unfold block senter sexit
-  simp [run, runAtom]
+  simp [run, runAtom, h]
 
 theorem same_exception_updated (φ : Faults) (body : Option Exc) (scramble : Ctx → Ctx) (m : M) :
     (block uenter uexit φ body scramble m).2 = body := by
@@ -62,7 +63,7 @@ theorem cleanup_all_run (φ : Faults) (body : Option Exc) (scramble : Ctx → Ct
     l.count .dispExit = 1 ∧ l.count .groupExit = 1 ∧ l.count .metricsExit = 1 ∧ l.count .stateExit = 1 := by
   unfold block aenter aexit
   simp only [run, runAtom, hin]
-  cases h2 : φ .groupExit <;> cases h3 : φ .dispExit <;> simp [h2, h3]
+  cases h2 : φ .groupExit <;> cases h3 : φ .dispExit <;> cases h4 : φ .metricsExit <;> simp [h2, h3, h4]
 
 /-- C02.failed_enter_rolls_back: when entering the disposables fails, the group is exited and the metrics node
 finished before the failure propagates; the body's cleanup (`__aexit__`) is not run. -/
@@ -73,20 +74,22 @@ theorem failed_enter_rolls_back (φ : Faults) (body : Option Exc) (scramble : Ct
     l.count .groupExitCaught = 1 ∧ l.count .metricsExit = 1 ∧ l.count .dispExit = 0 ∧ r.2.isSome := by
   unfold block aenter
   simp only [run, runAtom, hin]
-  cases h2 : φ .groupExit <;> simp [h2]
+  cases h2 : φ .groupExit <;> cases h4 : φ .metricsExit <;> simp [h2, h4]
 
-/-- C02.exception_priority: what the caller receives after an entered block: a failure of the group exit wait
-(cancellation) wins over a disposables cleanup failure, which wins over the body's outcome. -/
+/-- C02.exception_priority: what the caller receives after an entered block: a failure while the metrics scope is finished
+(the innermost `finally`) wins over a failure of the group exit wait (cancellation), which wins over a disposables cleanup
+failure, which wins over the body's outcome. -/
 theorem exception_priority (φ : Faults) (body : Option Exc) (scramble : Ctx → Ctx) (m : M)
     (hin : φ .dispEnter = none) :
     (block aenter aexit φ body scramble m).2 =
-      match φ .groupExit, φ .dispExit with
-      | some g, _ => some g
-      | none, some d => some d
-      | none, none => body := by
+      match φ .metricsExit, φ .groupExit, φ .dispExit with
+      | some x, _, _ => some x
+      | none, some g, _ => some g
+      | none, none, some d => some d
+      | none, none, none => body := by
   unfold block aenter aexit
   simp only [run, runAtom, hin]
-  cases h2 : φ .groupExit <;> cases h3 : φ .dispExit <;> simp [h2, h3]
+  cases h2 : φ .groupExit <;> cases h3 : φ .dispExit <;> cases h4 : φ .metricsExit <;> simp [h2, h3, h4]
 
 /-- C02.exit_reason (feeds C06/C07/C08): once entered, the disposables' `__aexit__` receives the body's outcome and
 the task group's `__aexit__` receives the scope's exit reason – the disposables' cleanup failure **of any class,
@@ -99,7 +102,7 @@ theorem exit_reason (φ : Faults) (body : Option Exc) (scramble : Ctx → Ctx) (
     r.groupSaw = some (match φ .dispExit with | some d => some d | none => body) := by
   unfold block aenter aexit
   simp only [run, runAtom, hin]
-  cases h2 : φ .groupExit <;> cases h3 : φ .dispExit <;> simp [h2, h3]
+  cases h2 : φ .groupExit <;> cases h3 : φ .dispExit <;> cases h4 : φ .metricsExit <;> simp [h2, h3, h4]
 
 /-- C02.enter_rollback_reason: when entering the disposables fails (or is cancelled), the group is exited with
 that very failure as its reason. -/
@@ -108,7 +111,7 @@ theorem enter_rollback_reason (φ : Faults) (body : Option Exc) (scramble : Ctx 
     (block aenter aexit φ body scramble m).1.groupSaw = some (some e) := by
   unfold block aenter
   simp only [run, runAtom, hin]
-  cases h2 : φ .groupExit <;> simp [h2]
+  cases h2 : φ .groupExit <;> cases h4 : φ .metricsExit <;> simp [h2, h4]
 
 /-- the state part, across tasks: a task's state variable is a function of its visible frame stack, so after the
 frames return to what they were the lookups are what they were (`Haiway.Tasks`, every interleaving). -/
@@ -134,6 +137,13 @@ def φbad : Faults := fun a => if a = .dispExit then some (.user 1) else none
 def m0 : M := { ctx := ⟨0, 0, 0⟩, tok := ⟨0, 0, 0⟩, new := ⟨1, 1, 1⟩ }
 
 example : (block aenter aexitFlat φbad none id m0).1.ctx ≠ m0.ctx := by decide
+
+/-- … and neither did `metrics exit; state exit` without a `finally` between them (the shape before the repair) when finishing the
+metrics scope fails (a logger that raises on the "...finished" line): the state stayed the block's -/
+example :
+    let φlog : Faults := fun a => if a = .metricsExit then some (.user 3) else none
+    (block senter (.seq (.atom .metricsExit) (.atom .stateExit)) φlog none id m0).1.ctx ≠ m0.ctx ∧
+    (block senter sexit φlog none id m0).1.ctx = m0.ctx ∧ (block senter sexit φlog none id m0).2 = some (.user 3) := by decide
 
 /-- non-vacuity / sensitivity: with `except Exception` in place of `except BaseException` around the disposables'
 exit, a *cancelled* cleanup is not handed to the group as the exit reason (the seeded change C06-m2 / C07-m1). -/
